@@ -6,7 +6,7 @@ import numpy as np
 from harness import core
 
 
-def make_case(H, rng, name, X, y, cid, kw, init, n_to, mix8=None, chain=None):
+def make_case(H, rng, name, X, y, cid, kw, init, n_to, mix8=None, chain=None, scale=1.0):
     cls, axis, family, needs_y = H.CLASSES[name]
     N = X.shape[axis]
     if name == "sPCovFPS":
@@ -17,7 +17,8 @@ def make_case(H, rng, name, X, y, cid, kw, init, n_to, mix8=None, chain=None):
         Q = [[] for _ in range(N)]
     P = (X if axis == 0 else X.T).astype(int).tolist()
     obj = cls(**kw)
-    rec = H.Recorder(obj, name, X.astype(float), None if y is None else np.asarray(y, float), unit, True, fps=True)
+    # scaled lattice: the code sees X*scale, y*scale (genuine rounding); tables are converted back to lattice units
+    rec = H.Recorder(obj, name, X.astype(float) * scale, None if y is None else np.asarray(y, float) * scale, unit / (scale * scale), True, fps=True)
     ok = rec.fit(n_to, warm=False, with_y=needs_y, init=init)
     for n2 in (chain or []):
         if not ok:
@@ -39,6 +40,7 @@ def gen(args):
         X = H.lattice(rng, n_s, m_s, int(rng.integers(1, 7)), kind)
         y = rng.integers(-4, 5, size=n_s)
         which = t % 4
+        scale = [1.0, 1.0, 1e-5, 3.7e-3, 0.25, 1e3, 7e-7][int(rng.integers(7))]
         N_s, N_f = n_s, m_s
         if which in (0, 1):
             # sample FPS on X and feature FPS on X^T: the same reference instance (duality)
@@ -61,9 +63,9 @@ def gen(args):
                 chain = [int(rng.integers(n_to, N + 1))]
             if N < 2 or X.shape[1] < 2:
                 continue
-            out.append(make_case(H, rng, "sFPS", X, None, "w%d-%d-s" % (wid, t), dict(kw), init, n_to, chain=chain))
+            out.append(make_case(H, rng, "sFPS", X, None, "w%d-%d-s" % (wid, t), dict(kw), init, n_to, chain=chain, scale=scale))
             if X.T.shape[0] >= 2:
-                c2 = make_case(H, rng, "fFPS", X.T.copy(), None, "w%d-%d-f" % (wid, t), dict(kw), init, n_to, chain=chain)
+                c2 = make_case(H, rng, "fFPS", X.T.copy(), None, "w%d-%d-f" % (wid, t), dict(kw), init, n_to, chain=chain, scale=scale)
                 out.append(c2)
         elif which == 2:
             N = N_s
@@ -76,13 +78,13 @@ def gen(args):
                 init = [int(rng.integers(N))]
                 kw = {"initialize": init[0], "mixing": a / 8}
             n_to = int(rng.integers(1, N + 1))
-            out.append(make_case(H, rng, "sPCovFPS", X, y, "w%d-%d-p" % (wid, t), kw, init, n_to, mix8=a))
+            out.append(make_case(H, rng, "sPCovFPS", X, y, "w%d-%d-p" % (wid, t), kw, init, n_to, mix8=a, scale=scale))
         else:
             N = N_s
             init = [int(rng.integers(N))]
             kw = {"initialize": init[0], "full_fraction": [None, 0.01, 0.3, 1.0][int(rng.integers(4))]}
             n_to = int(rng.integers(1, N + 1))
-            out.append(make_case(H, rng, "VoronoiFPS", X, None, "w%d-%d-v" % (wid, t), kw, init, n_to))
+            out.append(make_case(H, rng, "VoronoiFPS", X, None, "w%d-%d-v" % (wid, t), kw, init, n_to, scale=scale))
     return out
 
 
